@@ -23,7 +23,7 @@ def SwapStep (cfg : Cfg n) (R R' : AMat Int n) : Prop :=
 /-- the conjuncts of the acceptance test -/
 theorem accept_parts (cfg : Cfg n) (R : AMat Int n) (a b c d : Fin n) (h : accept cfg R a b c d = true) :
     (R.toFun a d = 0 ∧ R.toFun c b = 0) ∧
-    (∀ B, cfg.mask = some B → B.toFun a d = 0 ∧ B.toFun c b = 0) ∧
+    (∀ B, cfg.mask = some B → B.toFun a d = 0 ∧ B.toFun c b = 0 ∧ B.toFun d a = 0 ∧ B.toFun b c = 0) ∧
     (∀ D, cfg.lat = some D → latOk D R a b c d = true) ∧
     (cfg.conn = true → (if cfg.und then undConnOk R a b c d else dirConnOk R a b c d) = true) := by
   have g := accept_guard cfg R a b c d h
@@ -36,7 +36,7 @@ theorem accept_parts (cfg : Cfg n) (R : AMat Int n) (a b c d : Fin n) (h : accep
     · intro B hB
       rw [hB] at hm
       simp only [Bool.and_eq_true, beq_iff_eq] at hm
-      exact hm
+      exact ⟨hm.1.1.1, hm.1.1.2, hm.1.2, hm.2⟩
     · intro D hD
       rw [hD] at hl
       exact hl
